@@ -3,12 +3,15 @@ chooser Family so that they land on the tape; index 0 is always the benign
 alternative."""
 
 BENIGN_NAMES = ["alpha", "beta", "gamma", "delta", "eps"]
+# names that differ only by case or Unicode normalisation are different names for the server
+TWIN_NAMES = ["alpha", "Alpha", "ALPHA", "cafe\u0301", "caf\u00e9", "beta"]
 
 # names that are legal per RFC 5804 section 1.6 but resemble protocol elements
 LOOKALIKE_NAMES = [
     "plain", "OK", "NO", "BYE", "{3}", "{3+}", "ACTIVE", 'a" ACTIVE', "x\\y", 'a"b',
     "with space", "café", "日本語", "a\\", '"', "\\", "{0}", "x ACTIVE", "active",
     'q"', "a,b", "(x)", "𝔘nicode", "trailing ", " leading", "OK \"x\"", "ü", "名" * 170,
+    "e\u0301", "\u00e9", "Plain", "PLAIN", "\u212bngstr\u00f6m", "\u00c5ngstr\u00f6m",   # equal but for normalisation / case
 ]
 
 LINE_POOL = [
@@ -20,6 +23,7 @@ LINE_POOL = [
     # characters str.splitlines() treats as line boundaries but which are content inside a line
     # a legal quoted string of <= 1024 characters that is longer than 1024 octets
     ("é" * 700).encode("utf-8"), ("日" * 400 + " x").encode("utf-8"),
+    "\ufeffkeep;".encode("utf-8"), "x\ufeffy".encode("utf-8"),
     "a\u2028b".encode("utf-8"), "p\u2029q".encode("utf-8"), "n\u0085m".encode("utf-8"), b"v\x0bt", b"f\x0cf", b"g\x1cs\x1dr\x1eu",
 ]
 
@@ -37,7 +41,15 @@ def lines_of(b):
 
 def body(f, label, hostile=True, maxlines=8, uniq=None):
     """A script body as bytes."""
-    shape = f.weighted(label + ".shape", [6, 1, 1, 1, 2] if hostile else [1, 0, 0, 0, 0])
+    shape = f.weighted(label + ".shape", [6, 1, 1, 1, 2, 1] if hostile else [1, 0, 0, 0, 0, 0])
+    if shape == 5:
+        # total length on or around a power-of-two boundary (read_size-aligned replies)
+        T = [1024, 4096, 8192][f.int(label + ".T", 3)]
+        L = T - 40 + f.int(label + ".delta", 45)
+        head = b"# " + (uniq or b"b") + b"\r\n"
+        tail = [b"\r\n", b"", b"\n"][f.int(label + ".tail", 3)]
+        fill = max(0, L - len(head) - len(tail))
+        return head + b"y" * fill + tail
     if shape == 1:
         return b"" if uniq is None else b"# " + uniq
     if shape == 2:
